@@ -2,6 +2,8 @@ import ProductMD.Proofs.TreeInfoDoc
 import ProductMD.Proofs.C17General
 import ProductMD.Model.TreeInfoText
 import ProductMD.Proofs.TextOKDecide
+import ProductMD.Proofs.C17Legacy
+import ProductMD.Proofs.C05WitnessTI
 /-!
 # C17 — the legacy `[general]` section mirrors the authoritative sections
 
@@ -202,6 +204,102 @@ theorem C17_default_main_variant (tops : List Variant) :
         have := (sortBy_eq_nil id _).mp hs
         simpa using this
       | cons k0 r => rw [hs] at h; cases h
+
+/-! ### the last sentence: a pre-productmd reader given only the compatibility sections
+
+Stand-in for "a pre-productmd reader": the library's own reader for files without `[header]` (`Legacy.deserialize`, which
+then takes header version 0.0; `Model/TreeInfoLegacy.lean`, tied to `treeinfo.py` by the C05 correspondence and by the
+`legacy` observation of `harness/props/c17.py`).  It is handed the written document restricted to `compatDoc`: exactly
+`[general]`, `[stage2]`, `[checksums]` and every `[images-*]` — the sections a pre-productmd file has.  Of these the 0.0
+reader consults: `[general] family, version, arch, timestamp, variant, repository, packagedir` (and looks in vain for
+`addons, packages, packagedirs, identity, discnum, totaldiscs`), the `images-*` section NAMES for the platform list, all of
+`[stage2]`, `[checksums]`, `[images-*]`.  It does NOT read `[general] name, platforms, variants`.
+
+What it yields is `legacyTree` (`Proofs/C17Legacy.lean`): release name / version through the family table and the
+version heuristic of `Release.deserialize_0_0` (`legacyRelease`), the tree architecture, the integer timestamp, the
+platform list "architecture + one per images section" (`legacyPlatforms`), ONE variant whose id = uid = name is
+`[general] variant` with the paths `VariantPaths.deserialize_0_0` computes from `[general] repository / packagedir`
+(`legacyPathVals`), checksums, images, stage2 as in C04, no media.  `C17_legacy_same` below says when that is "the same
+tree". -/
+
+/-- the side conditions of `C17_legacy_reader_partial` on the tree and the variant name in `[general]` — all decidable -/
+structure LegacyOK (t : TreeInfo) (key : Str) : Prop where
+  /-- the name is not empty (else the reader guesses a variant from the release short name) -/
+  key_ne : key ≠ []
+  /-- …and has no dash: a dashed name (a child designated by its path, or a dashed top-level UID) is split at the last dash
+  into id ≠ uid, which `Variant.validate` refuses for a variant without parent (`C17_legacy_dashed_refused`) -/
+  key_dashless : '-' ∉ key
+  /-- the architecture is not itself the name of a kept section (the reader would read `platforms` from that section) -/
+  arch : compatSec t.tree.arch = false
+  /-- the RHEL 5 addon table does not apply (it invents children `Cluster`, `VT`, … for `Server` / `Client`) -/
+  rhel5 : Legacy.rhel5Addons (legacyCtx t) key [] = []
+  /-- no absolute path: the 0.0 `_fix_path` cuts those -/
+  rel : RelPaths t
+
+/-- on the written document itself -/
+theorem C17_legacy_reader_doc_partial (fo : FloatOracle) (t : TreeInfo) (mv : Option Str) (d : Ini) (n n' : Int) (key : Str)
+    (chosen : Variant) (h : serialize t mv = .ok d)
+    (hn : t.tree.ts.toInt = .ok n) (hkey : chosenKey t.variants mv = .ok key)
+    (hch : getItem (key.length + 1) t.variants key = .ok chosen)
+    (hfl : fo.intOfFloatStr (Str.intStr n) = .ok n') (hok : LegacyOK t key)
+    (hcs : ChecksumsOK t.checksums) (himg : ImagesOK t.tree.arch t.images)
+    (hvr : validateClass "treeinfo.Release" (releaseObj (legacyRelease t) false) = .ok ())
+    (hv : ReadValid (legacyTree t n' key chosen)) :
+    Legacy.deserialize fo (compatDoc d) = .ok (legacyTree t n' key chosen) := by
+  obtain ⟨n0, key0, chosen0, w⟩ := serialize_spec h
+  have e1 : n0 = n := by have := w.hn; rw [hn] at this; injection this with this; exact this.symm
+  have e2 : key0 = key := by have := w.hkey; rw [hkey] at this; injection this with this; exact this.symm
+  subst e1 e2
+  have e3 : chosen0 = chosen := by have := w.hchosen; rw [hch] at this; injection this with this; exact this.symm
+  subst e3
+  exact legacy_of_view fo t mv d d n0 n' key0 chosen0 w w.view hfl hok.key_ne hok.key_dashless hok.arch hok.rhel5 hcs himg
+    hok.rel (fun _ => trivial) (fun _ _ => trivial) hvr hv
+
+/-- **C17, the pre-productmd reader (partial).**  The bytes `dumps()` returns, read by the INI reader model, restricted to
+the compatibility sections and handed to the 0.0 reader, yield `legacyTree`.  Hypotheses: the text-level ones of
+`C04_tree_text` (`TextOK`, no comment-named checksum path / image name, `ChecksumsOK`, `ImagesOK`); `n` is
+`int(build_timestamp)`, `key` the variant `[general]` names and `chosen` the variant it designates (all three are
+determined by `t` and `mv`); `n'` is what `int(float(str(n)))` gives (`n' = n` up to 2^53, F17); `LegacyOK`; the tree
+the reader is to return passes the `validate()` calls the reader makes (`hvr`, `hv` — this is where a timestamp `0` is
+refused, `C17_legacy_zero_timestamp_refused`). -/
+theorem C17_legacy_reader_partial (sp : Char → Bool) (hsp : IniParse.SpOK sp) (hh : sp '#' = false) (hs : sp ';' = false)
+    (fo : FloatOracle) (t : TreeInfo) (mv : Option Str) (text : Str) (n n' : Int) (key : Str) (chosen : Variant)
+    (h : dumps t mv = .ok text) (htext : ∀ d, serialize t mv = .ok d → TextOK sp d)
+    (hn : t.tree.ts.toInt = .ok n) (hkey : chosenKey t.variants mv = .ok key)
+    (hch : getItem (key.length + 1) t.variants key = .ok chosen)
+    (hfl : fo.intOfFloatStr (Str.intStr n) = .ok n') (hok : LegacyOK t key)
+    (hck : ∀ c ∈ t.checksums, nc c.1 = true) (himn : ∀ p ∈ t.images, ∀ kv ∈ p.2, nc kv.1 = true)
+    (hcs : ChecksumsOK t.checksums) (himg : ImagesOK t.tree.arch t.images)
+    (hvr : validateClass "treeinfo.Release" (releaseObj (legacyRelease t) false) = .ok ())
+    (hv : ReadValid (legacyTree t n' key chosen)) :
+    ∃ d', IniParse.parse sp text = .ok d' ∧ Legacy.deserialize fo (compatDoc d') = .ok (legacyTree t n' key chosen) := by
+  unfold dumps at h
+  cases hser : serialize t mv with
+  | error e => rw [hser] at h; cases h
+  | ok d =>
+    rw [hser] at h
+    simp only [Except.map] at h
+    injection h with h
+    subst h
+    obtain ⟨n0, key0, chosen0, w⟩ := serialize_spec hser
+    have e1 : n0 = n := by have := w.hn; rw [hn] at this; injection this with this; exact this.symm
+    have e2 : key0 = key := by have := w.hkey; rw [hkey] at this; injection this with this; exact this.symm
+    subst e1 e2
+    have e3 : chosen0 = chosen := by have := w.hchosen; rw [hch] at this; injection this with this; exact this.symm
+    subst e3
+    obtain ⟨hnl, hrep⟩ := htext d hser
+    refine ⟨readDoc d, ?_, ?_⟩
+    · rw [render_eq_canon d w.view.noDefault]
+      exact IniParse.parse_render_dropComments hsp hh hs _ hnl hrep
+    · refine legacy_of_view fo t mv d (readDoc d) n0 n' key0 chosen0 w (view_readDoc w.view) hfl hok.key_ne hok.key_dashless
+        hok.arch hok.rhel5 hcs himg hok.rel ?_ ?_ hvr hv
+      · intro _ kv hkv
+        rw [checksumOpts_eq _ hcs.1] at hkv
+        obtain ⟨c, hc, rfl⟩ := List.mem_map.mp hkv
+        exact hck c hc
+      · intro p hp kv hkv
+        rw [setsKV_nil_nodup _ (himg.1 p hp)] at hkv
+        exact himn p hp kv hkv
 
 /-! ### non-vacuity: a `src` tree with a nested addon, only source paths, media -/
 def C17_exTree : TreeInfo :=
